@@ -1,5 +1,152 @@
 package props
 
-// childMain is the entry point when the test binary re-executes itself as a
-// child process (VERIF_CHILD set); see the stack clause of C10.
-func childMain() int { return 0 }
+import (
+	"bytes"
+	"fmt"
+	"io"
+	"os"
+	"os/exec"
+	"runtime/debug"
+	"strconv"
+	"testing"
+
+	"github.com/ChrisTrenkamp/xsel/node"
+	"github.com/ChrisTrenkamp/xsel/store"
+
+	"verif/xmodel"
+)
+
+// The stack clause of C10: "building the tree uses stack space bounded by
+// nesting depth, not by the number of nodes".  The test binary re-executes
+// itself as a child whose goroutine stacks are capped at 1 MiB + 4 KiB per
+// nesting level; the child builds a stream of N events at depth d and must
+// exit 0.  Stack proportional to the number of events overflows that cap at
+// ~10^4 events and the runtime kills the child.
+
+type c10StackCase struct {
+	N     int `json:"n"`     // number of events
+	Depth int `json:"depth"` // nesting depth of the flat run
+}
+
+var c10Stack = reg("C10", "c10-stack", checkC10Stack)
+
+// flatParser emits depth nested start events, then a flat run (empty
+// elements and text), then the matching end events: n events in total.
+type flatParser struct {
+	n, depth, i int
+	elems       int
+}
+
+type fpElem struct{}
+
+func (fpElem) Space() string { return "" }
+func (fpElem) Local() string { return "e" }
+
+type fpText struct{}
+
+func (fpText) CharDataValue() string { return "t" }
+
+func (p *flatParser) Pull() (node.Node, bool, error) {
+	i := p.i
+	p.i++
+	switch {
+	case i >= p.n:
+		return nil, false, io.EOF
+	case i < p.depth:
+		p.elems++
+		return fpElem{}, false, nil
+	case i >= p.n-p.depth:
+		return nil, true, nil
+	}
+	switch (i - p.depth) % 3 {
+	case 0:
+		if i+1 >= p.n-p.depth {
+			return fpText{}, false, nil // no room for the end event
+		}
+		p.elems++
+		return fpElem{}, false, nil
+	case 1:
+		return nil, true, nil
+	}
+	return fpText{}, false, nil
+}
+
+func childMain() int {
+	switch os.Getenv("VERIF_CHILD") {
+	case "stack":
+		n, _ := strconv.Atoi(os.Getenv("VERIF_CHILD_N"))
+		d, _ := strconv.Atoi(os.Getenv("VERIF_CHILD_DEPTH"))
+		debug.SetMaxStack(1<<20 + 4096*d)
+		p := &flatParser{n: n, depth: d}
+		root, err := store.CreateInMemory(p)
+		if err != nil {
+			fmt.Println("CreateInMemory error:", err)
+			return 3
+		}
+		// count the elements iteratively (the checker itself must not recurse deeply)
+		count := 0
+		stack := []store.Cursor{root}
+		for len(stack) > 0 {
+			c := stack[len(stack)-1]
+			stack = stack[:len(stack)-1]
+			if xmodel.KindOfCursor(c) == xmodel.Elem {
+				count++
+			}
+			stack = append(stack, c.Children()...)
+		}
+		if count != p.elems {
+			fmt.Printf("tree has %d elements, the stream had %d\n", count, p.elems)
+			return 4
+		}
+		return 0
+	}
+	fmt.Println("unknown VERIF_CHILD mode")
+	return 9
+}
+
+func testBinary() string {
+	if p := os.Getenv("VERIF_TESTBIN"); p != "" {
+		return p
+	}
+	p, _ := os.Executable()
+	return p
+}
+
+func checkC10Stack(c *c10StackCase) error {
+	cmd := exec.Command(testBinary())
+	cmd.Env = append(os.Environ(), "VERIF_CHILD=stack", "VERIF_CHILD_N="+strconv.Itoa(c.N), "VERIF_CHILD_DEPTH="+strconv.Itoa(c.Depth), "GOMAXPROCS=2")
+	var out bytes.Buffer
+	cmd.Stdout, cmd.Stderr = &out, &out
+	err := cmd.Run()
+	if err != nil {
+		msg := out.String()
+		if len(msg) > 400 {
+			msg = msg[:400]
+		}
+		return fmt.Errorf("building a stream of %d events at nesting depth %d under a stack cap of 1 MiB + 4 KiB per level: child %v: %s", c.N, c.Depth, err, firstLine(msg))
+	}
+	return nil
+}
+
+func runC10Stack(t *testing.T) {
+	t.Run("stack", func(t *testing.T) {
+		defer finalizeFailures(t)
+		grid := []c10StackCase{{1000, 1}, {20000, 1}, {200000, 1}, {200000, 10}, {100000, 1000}, {300000, 1}}
+		if thorough() {
+			grid = append(grid, c10StackCase{1000000, 1}, c10StackCase{2000000, 1}, c10StackCase{2000000, 10}, c10StackCase{2000000, 1000}, c10StackCase{500000, 10000})
+		}
+		for i, c := range grid {
+			if i%envShards != envShard {
+				continue
+			}
+			c := c
+			st.Eval(1)
+			st.Class("stack-grid")
+			if c.N >= 100000 {
+				st.NonTrivial(fmt.Sprint("stack", c))
+			}
+			st.Sample(fmt.Sprint("stack", c), map[string]any{"events": c.N, "depth": c.Depth, "stack cap bytes": 1<<20 + 4096*c.Depth})
+			c10Stack.run(t, &c)
+		}
+	})
+}
